@@ -562,7 +562,7 @@ namespace
                     probe("block_returned_with_a_pointer_to_a_sibling_cell_in_it");
                 }
                 if (kind == 0) pool_free(&ph, b);
-                else if (kind == 1) ip.put(b);
+                else if (kind == 1) { if (free_tick % 4 == 1) { ip.put(nullptr); probe("null_given_back_to_the_pool"); } ip.put(b); } // (giving back NULL is a no-op)
                 else sop->destroy((Obj *)b);
                 tr.ev("free cell %td", (b - sh.lo) / (ptrdiff_t)elsz);
             };
